@@ -352,6 +352,10 @@ func runHistory(c *Ctx, caseIdx int, rng *rand.Rand, o *HistOpts) *HistRun {
 		zeroHash := strings.Repeat("0", 64)
 		lostGenesis := int64(0)
 		for _, df := range diffStates(so.Expected, obs) {
+			if (df.Area == "proposal" || df.Area == "frozenprop") && so.Ambiguous[df.Key] {
+				c.Count("ambiguous-proposal-states-skipped", 1)
+				continue
+			}
 			props := hr.attribute(df, b, so)
 			if props == nil {
 				c.Note("unattributed diff " + df.Area)
